@@ -616,6 +616,48 @@ def rule_flag(ctx):
     return rr
 
 
+def rule_invdata(ctx):
+    rr = RuleResult('C08', 'C08.invdata', 'DEP',
+                    'the record of what an inverse range assembler sets names '
+                    'every one of its outputs', floor=1)
+    p = ctx.project
+    stores = []
+    for f in p.module('formulas/cell.py').all_funcs + p.module(
+            'formulas/excel/__init__.py').all_funcs:
+        for n in own_nodes(f):
+            if isinstance(n, ast.Assign) and any(
+                    isinstance(t, ast.Subscript) and isinstance(
+                        t.slice, ast.Constant) and t.slice.value == 'inv-data'
+                    for t in n.targets):
+                stores.append((f, n))
+    if not stores:
+        raise AnalysisError('no store of the `inv-data` record found')
+    for f, n in stores:
+        v = n.value
+        if not any(isinstance(x, ast.Attribute) and x.attr == 'outputs'
+                   for x in ast.walk(v)):
+            continue          # the link of a defined name, not an assembler
+        rr.instances += 1
+        flt = [x for x in ast.walk(v) if isinstance(
+            x, (ast.SetComp, ast.ListComp, ast.GeneratorExp, ast.DictComp))
+            and any(g.ifs for g in x.generators)]
+        flt += [x for x in ast.walk(v) if isinstance(x, ast.Call) and
+                call_name(x) == 'filter']
+        if flt:
+            rr.fail(key_of(f, 'inverse outputs recorded selectively'),
+                    '%s records in `inv-data` only some outputs of the inverse '
+                    'assembler (`%s`): compile() keeps the default value of '
+                    'the ones left out, so a compiled function whose input is '
+                    'the range computes their dependents from the stored '
+                    'constants' % (f.qualname, norm_src(flt[0])[:80]),
+                    file=f.module.rel, function=f.qualname, line=n.lineno)
+        else:
+            rr.ok('%s records every output of the inverse assembler (`%s`)' % (
+                f.qualname, norm_src(v)[:60]), '%s:%d' % (
+                    f.module.rel, n.lineno))
+    return rr
+
+
 def run(ctx):
     S = ctx.soft
     from .c03 import rule_pair
@@ -641,6 +683,6 @@ def run(ctx):
     from .c07 import rule_nomut
     from .modelstate import rule_history
     return [S(rule_unset, ctx), S(rule_freeze, ctx), S(rule_flag, ctx), r, v,
-            S(rule_self, ctx),
+            S(rule_self, ctx), S(rule_invdata, ctx),
             S(rule_nomut, ctx, 'C08', 'C08.nomut'),
             S(rule_history, ctx, 'C08', 'C08.history')]
